@@ -150,6 +150,9 @@ func TestC20Validation(t *testing.T) {
 	rep := ev.NewReport("C20", "validation")
 	sigma := []byte{'a', 'Z', '0', '-', '.', '|', ':', '/', '=', ' ', 0x00, 0x7f, 0xc3}
 	L := 5
+	if ev.Thorough() {
+		L = 6
+	}
 	rep.Bound = fmt.Sprintf("all strings of length <=%d over %q; all 256 single bytes alone and embedded; 149/150/151-byte identifiers alone and inside lists; all lists of <=4 elements over a 10-element pool with and without metadata", L, string(sigma))
 	rep.Rule = "real TenantID / TenantIDs / ExtractWithMetadata vs an independent reading of the documented rules (split on '|', cut at first ':', documented character set, <=150 bytes, not '.'/'..'); agreement between single and multi resolution; metadata independence; distinct_nontrivial = accepted org ids"
 	deadline := ev.Deadline(10 * time.Minute)
@@ -287,7 +290,7 @@ var hops = []struct {
 func TestC20Propagation(t *testing.T) {
 	rep := ev.NewReport("C20", "propagation")
 	sigma := []byte{'a', 'Z', '-', '.', '|', ':', '/', ' ', 0x7f, 0xc3}
-	rep.Bound = fmt.Sprintf("org ids: all strings of length <=3 over %q plus 150/151-byte ids; every chain of 1..4 hops over {HTTP inject/extract, HTTP through AuthenticateUser, gRPC inject/extract, gRPC client+server interceptors}; absent / empty / conflicting / multi-valued cases", string(sigma))
+	rep.Bound = fmt.Sprintf("org ids: all strings of length <=3 (thorough 4) over %q plus 150/151-byte ids; every chain of 1..4 hops over {HTTP inject/extract, HTTP through AuthenticateUser, gRPC inject/extract, gRPC client+server interceptors}; absent / empty / conflicting / multi-valued cases", string(sigma))
 	rep.Rule = "the org id placed in a context arrives byte-identical after every hop; an empty or absent id is rejected with ErrNoOrgID at an HTTP hop and never replaced by a default; 0 or >=2 gRPC metadata values are rejected; a conflicting pre-existing header/metadata value is refused; distinct_nontrivial = (org id, chain) pairs that went through >=2 hops"
 	deadline := ev.Deadline(10 * time.Minute)
 	var ids []string
@@ -301,7 +304,11 @@ func TestC20Propagation(t *testing.T) {
 			gen(append(append([]byte(nil), prefix...), c), l-1)
 		}
 	}
-	gen(nil, 3)
+	idLen := 3
+	if ev.Thorough() {
+		idLen = 4
+	}
+	gen(nil, idLen)
 	ids = append(ids, strings.Repeat("a", 150), strings.Repeat("a", 151), "tenant-1|tenant-2:k=v")
 	var chains [][]int
 	for l := 1; l <= 4; l++ {
